@@ -62,3 +62,47 @@ def model_dict(model, vars_):
     return d
 
 def fr(x): return Fraction(x)
+
+# ---------------------------------------------------------------- native replay programs (real code, sanitizers on)
+import subprocess, hashlib, re as _re
+def native_run(wrapper, body, sanitize=True, timeout=60, includes=''):
+    """compile `#include <wrapper>; int main(){ body }` from the CURRENT tree with g++ (-fsanitize=undefined,address, no recovery)
+    against a fresh g++ -O2 build of the library, run it, return {rc, out, err}.  Used to replay counterexamples:
+    sanitizer abort = reproduced undefined behaviour; printed outputs are compared with the reference by the caller."""
+    sc = build.scratch(); lib = build.full_lib_so()
+    h = hashlib.md5((wrapper + body + str(sanitize)).encode()).hexdigest()[:10]
+    src = os.path.join(sc, 'replay-%s.cpp' % h); exe = os.path.join(sc, 'replay-%s' % h)
+    open(src, 'w').write('#include <cstdio>\n#include <cmath>\n#include <cstring>\n#include <string>\n%s\n#include "%s"\nint main() {\n%s\nreturn 0; }\n' % (includes, build.wrapper(wrapper), body))
+    san = ['-fsanitize=undefined,address,float-cast-overflow', '-fno-sanitize-recover=all', '-fno-omit-frame-pointer'] if sanitize else []
+    cmd = ['g++', '-std=gnu++17', '-O1', '-g', '-fno-access-control', '-DNDEBUG', '-w'] + san + build.incflags() + [src, lib, '-Wl,-rpath,' + os.path.dirname(lib), '-o', exe]
+    r = subprocess.run(cmd, capture_output=True, text=True)
+    if r.returncode: raise RuntimeError('replay program did not compile: ' + r.stderr[-2000:])
+    env = dict(os.environ, ASAN_OPTIONS='detect_leaks=0:abort_on_error=0', UBSAN_OPTIONS='print_stacktrace=0')
+    try:
+        p = subprocess.run([exe], capture_output=True, text=True, timeout=timeout, env=env)
+    except subprocess.TimeoutExpired:
+        return {'rc': -999, 'out': '', 'err': 'timeout', 'vals': {}}
+    vals = {}
+    for ln in p.stdout.split('\n'):
+        mo = _re.match(r'(\w+)=(.*)$', ln.strip())
+        if mo: vals[mo.group(1)] = mo.group(2)
+    return {'rc': p.returncode, 'out': p.stdout[-2000:], 'err': p.stderr[-1500:], 'vals': vals}
+
+def chex(x):
+    """python float -> C++ expression with the exact value"""
+    import math
+    if isinstance(x, dict): x = float.fromhex(x['double_hex']) if 'double_hex' in x else float(x.get('float'))
+    x = float(x)
+    if x != x: return 'std::nan("")'
+    if x == float('inf'): return 'INFINITY'
+    if x == float('-inf'): return '(-INFINITY)'
+    return x.hex()
+def pyfloat(x):
+    if isinstance(x, dict): return float.fromhex(x['double_hex']) if 'double_hex' in x else float(x.get('float'))
+    return float(x)
+def san_failed(r):
+    return r['rc'] != 0 and ('runtime error' in r['err'] or 'AddressSanitizer' in r['err'])
+def san_msg(r):
+    for ln in r['err'].split('\n'):
+        if 'runtime error' in ln or 'AddressSanitizer' in ln: return ln.strip()[:300]
+    return r['err'][:300]
